@@ -5,4 +5,4 @@ import XPathV.Theorems.C04
 #print axioms XPathV.Theorems.C04.clone_is_fresh_and_state_independent
 #print axioms XPathV.Theorems.C04.clone_is_fresh_all_iterators
 #print axioms XPathV.Theorems.C04.function_arguments_cloned_per_call
-#print axioms XPathV.Theorems.C04.clone_is_fresh_all_iterators'
+#print axioms XPathV.Theorems.C04.clone_is_fresh_all_iterators_any_predicate
